@@ -1,15 +1,17 @@
 #!/bin/bash
 # run_benign.sh <name> : applies /verif/benign/<name>/patch.diff (a behaviour-preserving change) to /repo, runs EVERY
 # quick check, prints the ones that do not exit 0, and undoes the change. A check that alarms here is a false alarm.
+# (RB_REPO / RB_VERIF select a relocated copy made by snapshot_run.sh, to run two lanes in parallel.)
 set -u
 NAME="$1"
-cd /repo || exit 2
+REPO="${RB_REPO:-/repo}"; VERIF="${RB_VERIF:-/verif}"
+cd "$REPO" || exit 2
 if [ -n "$(git status --porcelain -- src Cargo.toml)" ]; then echo "/repo has uncommitted changes; refusing"; exit 2; fi
 git apply /verif/benign/$NAME/patch.diff || { echo "$NAME: patch does not apply"; exit 2; }
 BAD=0
 for C in C01 C02 C03 C04 C05 C06 C07 C08 C09 C10 C11 C12 C13 C14 C15 C16 C17 C18 C19; do
-  OUT=$(MV_NO_EVIDENCE=1 /verif/check $C --tier quick 2>&1); RC=$?
+  OUT=$(MV_NO_EVIDENCE=1 "$VERIF/check" $C --tier quick 2>&1); RC=$?
   if [ $RC -ne 0 ]; then BAD=$((BAD+1)); echo "== $NAME vs $C: exit=$RC"; echo "$OUT" | grep -E "^(VIOLATION|MACHINERY)" | cut -c1-300 | head -3; fi
 done
 echo "== $NAME: $BAD of 19 checks did not exit 0"
-git -C /repo checkout -- src Cargo.toml
+git -C "$REPO" checkout -- src Cargo.toml
